@@ -94,11 +94,9 @@ def classify(path, folder):
         return "cache"
     if path == root or path.startswith(root + "/"):
         comps = path[len(root):].split("/")
-        if any(c.startswith(".Radicale.lock") for c in comps):
-            return "lock"
         if ".Radicale.cache" in comps:
-            return "cache"
-        return "data"
+            return "cache"          # includes the per-collection cache lock files .Radicale.cache/<ns>/.Radicale.lock.<ns>
+        return "data"               # a lock file anywhere else in a collection folder is collection data like any other file
     return None
 
 
@@ -391,6 +389,9 @@ def fixed_block():
                       kind="fixed"))
     r.append(dict(method="REPORT", path="/u/cal/e1.ics", login=L, data=x_c10.report_body("freebusy", None), rkind="freebusy",
                   kind="fixed"))
+    for p in ("/u/cal/e1.ics", "/u/cal", "/u/cal/", "/u/ab/c1.vcf", "/u/nope.ics"):
+        r.append(dict(method="OPTIONS", path=p, login=L, kind="fixed"))
+        r.append(dict(method="POST", path=p, login=L, data="x", kind="fixed"))
     for p in ("/u/cal/", "/u/cal/e1.ics", "/u/ab/", "/u/", "/u/plain/"):
         r.append(dict(method="GET", path=p, login=L, kind="fixed"))
         r.append(dict(method="PROPFIND", path=p, login=L, data=x_c10.propfind_body("allprop", None), headers={"HTTP_DEPTH": "1"},
